@@ -155,7 +155,7 @@ def nonpositive(d, assumptions) -> bool:
         return all(nonpositive(x, assumptions) for x in d.items)
     if not isinstance(d, Lin):
         return False
-    key = id(assumptions), len(assumptions)
+    key = tuple(map(repr, assumptions))      # by content: the id of a list may be reused by a later list of the same length
     dc = _DC_CACHE.get(key)
     if dc is None:
         _DC_CACHE.clear()
